@@ -69,12 +69,22 @@ Theorem pipe_eq_file : forall parse_ok exits parse_file_ok cs,
 Proof. exact pipe_visible_eq_file. Qed.
 Print Assumptions pipe_eq_file.
 
+(* THE THEOREM FOR THE CURRENT TREE (fix: e573377 string-escape state in the pipe reader, 21cfae2 lexer rule for a single
+   backslash): every syntactically valid script shows the same things in the same order in both modes, however it is
+   read -- no guard on string literals.  (Breaks, as it must, if either fix is reverted.) *)
+Theorem pipe_eq_file_current : forall parse_ok exits parse_file_ok cs,
+  no_empty cs -> lex_valid (concat cs) = true ->
+  all_parse_ok parse_ok (concat cs) -> parse_file_ok (concat cs) = true ->
+  visible (pipe_events parse_ok exits cs) = file_events exits parse_file_ok (concat cs).
+Proof. exact pipe_eq_file_current_lemma. Qed.
+Print Assumptions pipe_eq_file_current.
+
 (* guard 2 is void once the lexer has a rule for a single backslash in a string literal *)
 Theorem lex_echo_void_when_fixed : gen_lone_backslash_echo = false -> forall s, lex_echo s = [].
 Proof. intros H s. exact (lex_echo_from_fixed H s LInit). Qed.
 Print Assumptions lex_echo_void_when_fixed.
 
-(* Refutation 1 (faithful model of the unchanged tree; DESIGN.md section 9 item 1):
+(* History: refutation 1 (faithful model of the tree before e573377; vacuous now; DESIGN.md section 9 item 1):
    (set-logic QF_UF)(echo DQ a \ DQ ( b DQ)(check-sat)  is valid, yet pipe mode frames it differently and
    executes other commands than file mode. *)
 Theorem pipe_eq_file_refuted :
@@ -86,7 +96,7 @@ Theorem pipe_eq_file_refuted :
 Proof. exact pipe_eq_file_refuted_lemma. Qed.
 Print Assumptions pipe_eq_file_refuted.
 
-(* Refutation 2: (echo DQ x DQ)(echo DQ a \ b DQ)  -- framing is the same, but the lexer ECHOes the
+(* History: refutation 2 (before 21cfae2; vacuous now): (echo DQ x DQ)(echo DQ a \ b DQ)  -- framing is the same, but the lexer ECHOes the
    backslash while lexing, and file mode lexes everything before executing anything. *)
 Theorem pipe_eq_file_lone_backslash_refuted :
   gen_lone_backslash_echo = true ->
